@@ -337,6 +337,7 @@ class P(Prop):
     id = "C08"
     design_ref = "DESIGN.md section 5, C08 and appendix A.3"
     M = "TracklibVerif.Props.C08"
+    M2 = "TracklibVerif.Props.C08Search"
     theorems = [
         (M, "TV.C08.straddle_necessary", "two closed segments sharing a point pass isSegmentIntersects (val1 <= 0 and val2 <= 0), touching ends and zero-length segments included"),
         (M, "TV.C08.cells_complete", "a point P of segment [c1,c2] in cell (i,j) — i <= Px < i+1, or i = csize-1 and i <= Px <= csize (last column closed on the upper border), same for j — implies (i,j) in __cellsCrossSegment(c1,c2), segments lying on the upper border included"),
@@ -361,12 +362,26 @@ class P(Prop):
         (M, "TV.C08.grid_always_builds", "the repairs 9a44198 and degenerate-extent: default or positive explicit cell size, ANY bounding box (thin, flat, a single point, shorter than the cell size): __init__ reaches the registration loop without raising, with >= 1 column and >= 1 row, positive cell sides, cells tiling every axis of positive length exactly and one column / row on an axis of zero length"),
         (M, "TV.C08.flat_axis_single_column", "on a built index whose extent has zero length along an axis (a straight north-south or east-west track) that axis has one column / row and every point of the extent has index 0 on it"),
         (M, "TV.C08.isFloor_ratFloor", "Rat.floor, the driver's math.floor, satisfies the floor contract assumed by the theorems"),
+        (M2, "TV.C08.units_cover_ground_distance", "what a radius of U >= 0 UNITS means on the ground: a point of the extent whose coordinates differ from those of q by at most U*min(dX,dY) lies in a cell at most U columns and rows from the cell of q (the square neighborhood(q, unit=U) reads)"),
+        (M2, "TV.C08.neighborhood_unit_complete", "neighborhood(q, unit=U), U >= 0 given directly in units, every q of the closed extent of an index on which nothing raises: returns, and contains every feature listed in the cell of a point of the extent within Euclidean distance U*min(dX,dY) of q"),
+        (M2, "TV.C08.incremental_search_complete", "neighborhood(q, unit=-1) (incremental search), every q of the closed extent: returns a list l and there is a last ring U with (a) l = EXACTLY what the cells at most U units from the cell of q list (the clipped rings lose no cell), (b) every feature listed in the cell of a point within Euclidean distance U*min(dX,dY) of q is in l, (c) l empty iff no cell of the grid lists anything, else U >= 1, a cell at most U-1 units away lists a feature and none at most U-2 units away does (stops one ring after the first non-empty ring)"),
+        (M2, "TV.C08.incremental_search_on_built_index", "the same on a built index in terms of the features: every feature with a point within U*min(dX,dY) of q is returned, and the answer is not empty as soon as the collection has a segment"),
+        (M2, "TV.C08.incremental_search_misses_nearest", "REFUTATION with witness (square unit cells, 10 x 10): 'the nearest feature is among those returned by neighborhood(q, unit=-1)' is false: the track in ring 1 at distance > 2.2 is returned, the search stops after ring 2, the track in ring 3 at distance 2.125 is omitted (replayed on the real code: corpus 21)"),
+        (M2, "TV.C08.segment_neighborhood_complete", "neighborhood([Q1,Q2], None, unit=groundDistanceToUnits(d)), both ends in the closed extent, d >= 0: both calls return and the answer contains every feature listed in the cell of a point of the extent within Euclidean distance d of SOME point of the query segment"),
+        (M2, "TV.C08.track_neighborhood_complete", "neighborhood(track, None, unit=groundDistanceToUnits(d)), every vertex in the closed extent: returns and contains every feature listed in the cell of a point within d of some point of some segment of the query track"),
+        (M2, "TV.C08.late_feature_outside_exact", "addFeature(track, num) / Network.addEdge for ANY track (vertices outside the extent allowed): returns, keeps extent / dimensions / earlier registrations; first vertex outside => NOTHING is registered (index unchanged); first vertex inside => the result is exactly addFeature of the polyline through the inside vertices (chords replace the legs through outside vertices), every point of every such chord is in a cell listing num, and every leg with BOTH ends inside is such a chord"),
+        (M2, "TV.C08.late_feature_first_vertex_outside_dropped", "witness: the edge (200,50)-(40,50)-(60,50) added to an index of extent [-5,105]^2 is not found at (50,50), a point of its segment lying wholly inside the extent; the same edge given from its other end is (corpus 22)"),
+        (M2, "TV.C08.late_feature_outside_leg_not_registered", "witness: the edge (40,50)-(50,200)-(60,50) leaves the extent at its middle vertex: the chord (40,50)-(60,50) is registered, the point (42,80) of the first leg, inside the extent, finds nothing (corpus 22)"),
+        (M2, "TV.C08.rounded_cell_in_grid", "for ANY monotone rounded subtraction / division exact on o-o and 0/d (IEEE in any rounding mode): the column min(floor(min((x-xmin)/dX, csize)), csize-1) computed for x >= xmin is a column of the grid: no IndexError and no negative index wrapping to the last column"),
+        (M2, "TV.C08.rounded_cell_mono", "under the same assumptions the computed column is monotone in x"),
+        (M2, "TV.C08.rounded_cell_at_xmin", "under the same assumptions xmin is in column 0"),
+        (M2, "TV.C08.rounded_floor_may_reach_csize", "REFUTATION (counter-model): monotone rounding exact at both ends of the extent does not give floor((x-xmin)/dX) < csize for xmin <= x < xmax — only the clamp keeps the point in the last column; in IEEE doubles it happens for xmin=0, xmax=0.5, 7 columns, x=0.49999999999999994 (corpus 23)"),
     ]
     partial = []
     open_statements = [
-        "theorems are over an ordered field with an exact floor: IEEE rounding in (x-xmin)/dX and in the straddle products is outside them (sampled by the flt stream with a 1e-7-cell guard); the one rounding situation met — the index of x = xmax exceeding csize by an ulp, so that a segment lying on the border was registered nowhere — is removed by the cap min(index, csize) of __getCell (identity in exact arithmetic: getCell_min_is_identity) and generated on purpose by the float stream",
-        "the unit = -1 incremental searches of neighborhood and the given-unit segment/track neighbourhoods are modelled and compared with the implementation, no theorem is stated about them (the property does not mention them)",
-        "later addFeature calls with a vertex OUTSIDE the extent are modelled and compared (the `continue` that keeps a stale coord1 and so registers a chord instead of the two legs), no theorem is stated about them: late_feature_complete is about additions inside the extent",
+        "IEEE rounding: the completeness theorems are over an ordered field with an exact floor; rounding in (x-xmin)/dX and in the straddle products is outside them (sampled by the flt stream with a 1e-7-cell guard). Proved for any monotone rounding (rounded_cell_in_grid / _mono / _at_xmin): the computed column of a point of the extent is a column of the grid, monotone in x, 0 at xmin. NOT true in doubles, hence not proved: floor((x-xmin)/dX) < csize for x < xmax (corpus 23; rounded_floor_may_reach_csize) — the cap min(index, csize) of __getCell (identity in exact arithmetic: getCell_min_is_identity) and the clamp to csize-1 absorb it. Not proved: that the computed column is within one column of the exact one, and anything about the rounded straddle test",
+        "neighborhood(q, unit=-1): what is proved is incremental_search_complete (everything within the last ring read, one ring past the first non-empty one); that the NEAREST feature is returned is false (incremental_search_misses_nearest). The unit = -1 searches of the SEGMENT and TRACK forms (searchSegLoop: first non-empty radius u, then radius u+1; None when nothing is found, on which the track form raises TypeError) are modelled and compared, no theorem is stated about them; the given-unit segment / track forms are covered by segment_neighborhood_complete / track_neighborhood_complete for unit = groundDistanceToUnits(d)",
+        "later addFeature / Network.addEdge calls with a vertex OUTSIDE the extent: late_feature_outside_exact says exactly what is registered (nothing when the first vertex is outside; otherwise the polyline through the inside vertices). Completeness for the part INSIDE the extent of a leg that has an end outside is false (late_feature_outside_leg_not_registered, late_feature_first_vertex_outside_dropped) — outside the property, whose feature sets lie inside the extent (the extent of a built index contains its collection); reported as an observation. That NOTHING but the cells of those chords is registered (the converse inclusion) is not stated",
     ]
     modelled = ("TrackCollection.createSpatialIndex (its verbose flag becomes the constructor's margin) and Network.createSpatialIndex as front ends, the default margin 0.05 of the constructor and of "
                 "Network.createSpatialIndex when the call leaves it out (createIndexArgs), Network.addEdge on an indexed network (networkAddEdges: the registration loop from the running edge number, the numbers are the model's); "
